@@ -231,6 +231,16 @@ func pairsJoin(l []Pair) string {
 
 type c12Checker struct{}
 
+// hrefEndsWithQuery: the serialization without fragment ends in "?"+s (for an empty s: in the
+// pathname, with or without a bare "?"). Judged from the end, because under lax host parsing a host
+// may itself contain '?'.
+func hrefEndsWithQuery(o Obs, s string) bool {
+	if s != "" {
+		return strings.HasSuffix(o.HrefNF, "?"+s)
+	}
+	return strings.HasSuffix(o.HrefNF, o.Pathname) || strings.HasSuffix(o.HrefNF, o.Pathname+"?")
+}
+
 func queryOfHref(href string) string {
 	if i := strings.IndexByte(href, '#'); i >= 0 {
 		href = href[:i]
@@ -262,15 +272,13 @@ func (c *c12Checker) After(w *World, ev *Event) []Failure {
 					fs = append(fs, fail("C12.sync.list->url", append(ctx, "what", "Query", "query", q(o.Query), "list", q(s))...))
 				} else if !(o.Search == "?"+s && s != "" || o.Search == "" && s == "") {
 					fs = append(fs, fail("C12.sync.list->url", append(ctx, "what", "Search", "search", q(o.Search), "list", q(s))...))
-				} else if queryOfHref(o.Href) != s {
+				} else if !hrefEndsWithQuery(o, s) {
 					fs = append(fs, fail("C12.sync.list->url", append(ctx, "what", "Href", "list", q(s))...))
 				}
 			} else {
-				sch := "s"
-				if o.Special {
-					sch = "http"
-				}
-				f, err := url.Parse(sch + "://h/?" + o.Query)
+				// a fresh URL of the same scheme, parsed by the same parser (encoding override, special
+				// schemes and encode sets are the configuration's)
+				f, err := w.parse(o.Scheme + "://h/?" + o.Query)
 				if err != nil || f == nil {
 					continue
 				}
